@@ -32,18 +32,18 @@ PROPS["C04"] = {
     "units": [{
         "pkg": "internal/field", "configs": ["default", "purego", "force32bit"],
         "tests": {
-            "TestC04Raw": T(16000, 1000000),
-            "TestC04Encode": T(12000, 500000),
-            "TestC04Sqrt": T(4000, 150000),
-            "TestC04Prog": T(12000, 600000),
-            "TestC04Bytes": T(12000, 500000),
+            "TestC04Raw": T(32000, 1000000),
+            "TestC04Encode": T(24000, 500000),
+            "TestC04Sqrt": T(8000, 150000),
+            "TestC04Prog": T(24000, 600000),
+            "TestC04Bytes": T(24000, 500000),
             "TestC04Consts": LIST(),
         },
     }, {
         "pkg": "curve", "configs": ["default"],
         "tests": {
-            "TestC04LaneOps": T(10000, 500000),
-            "TestC04LanePoints": T(2500, 100000),
+            "TestC04LaneOps": T(20000, 500000),
+            "TestC04LanePoints": T(5000, 100000),
         },
     }],
 }
